@@ -65,7 +65,8 @@ def check(m, run):
         pk2(m, run)
     funcs = [ev(c) for c in ('CurveEvaluator', 'CurveEvaluator2', 'SurfaceEvaluator', 'SurfaceEvaluator2')] + \
         [m.func('helpers.surface_deriv_cpts'), m.func('helpers.curve_deriv_cpts')]
-    rl.ly1_canonical(m, run, funcs)
+    with run.corroborating(sem_ok and pk_ok, 'A36S/A34S/RQ2/PK3', rules=('LY1.canonical-stride',), only=lambda o: o.rule.startswith('LY1')):
+        rl.ly1_canonical(m, run, funcs)
     ra.ax1_helper_calls(m, run, funcs + [m.func('helpers.basis_function_ders'), m.func('helpers.basis_function_all')])
     n1 = len(run.obs)
     _sd.hd3(m, run)
